@@ -339,9 +339,9 @@ Definition U64_MAX : Z := 18446744073709551615.
    the value inside the type *)
 Definition from_str_radix (signed : bool) (radix : Z) (s : str) : outcome Z :=
   let '(neg, ds) := match s with
-                    | 43 :: r => (false, r)
-                    | 45 :: r => if signed then (true, r) else (false, s)
-                    | _ => (false, s)
+                    | c :: r => if c =? 43 then (false, r)
+                                else if (c =? 45) && signed then (true, r) else (false, s)
+                    | [] => (false, s)
                     end in
   match ds with
   | [] => Panic
@@ -355,8 +355,7 @@ Definition from_str_radix (signed : bool) (radix : Z) (s : str) : outcome Z :=
 
 Definition has_hex_prefix (s : str) : option str :=
   match s with
-  | 48 :: 120 :: r => Some r
-  | 48 :: 88 :: r => Some r
+  | c1 :: c2 :: r => if (c1 =? 48) && ((c2 =? 120) || (c2 =? 88)) then Some r else None
   | _ => None
   end.
 
@@ -445,3 +444,1172 @@ Definition p_imm_bool : P (imm bool) :=
   | Some _ => mapP Imm p_bool
   | None => mapP PNode p_nodeid
   end.
+
+(* ------------------------------------------------------------------------------------------------ *)
+(* enumerated element texts                                                                          *)
+
+Inductive namespace := NsStandard | NsCustom.
+Definition namespace_tbl : list (str * namespace) := [(L_Standard, NsStandard); (L_Custom, NsCustom)].
+Definition namespace_name (x : namespace) : str := match x with NsStandard => L_Standard | NsCustom => L_Custom end.
+Definition namespace_ord (x : namespace) : Z := match x with NsStandard => 0 | NsCustom => 1 end.
+
+Inductive mergeprio := MpHigh | MpMid | MpLow.
+Definition mergeprio_tbl : list (str * mergeprio) := [(L_1, MpHigh); (L_0, MpMid); (L_m1, MpLow)].
+Definition mergeprio_name (x : mergeprio) : str := match x with MpHigh => L_1 | MpMid => L_0 | MpLow => L_m1 end.
+Definition mergeprio_ord (x : mergeprio) : Z := match x with MpHigh => 0 | MpMid => 1 | MpLow => 2 end.
+
+Inductive vis := VBeginner | VExpert | VGuru | VInvisible.
+Definition vis_tbl : list (str * vis) := [(L_Beginner, VBeginner); (L_Expert, VExpert); (L_Guru, VGuru); (L_Invisible, VInvisible)].
+Definition vis_name (x : vis) : str := match x with VBeginner => L_Beginner | VExpert => L_Expert | VGuru => L_Guru | VInvisible => L_Invisible end.
+Definition vis_ord (x : vis) : Z := match x with VBeginner => 0 | VExpert => 1 | VGuru => 2 | VInvisible => 3 end.
+
+Inductive access := AmRO | AmWO | AmRW.
+Definition access_tbl : list (str * access) := [(L_RO, AmRO); (L_WO, AmWO); (L_RW, AmRW)].
+Definition access_name (x : access) : str := match x with AmRO => L_RO | AmWO => L_WO | AmRW => L_RW end.
+Definition access_ord (x : access) : Z := match x with AmRO => 0 | AmWO => 1 | AmRW => 2 end.
+
+Inductive caching := CmWriteThrough | CmWriteAround | CmNoCache.
+Definition caching_tbl : list (str * caching) := [(L_WriteThrough, CmWriteThrough); (L_WriteAround, CmWriteAround); (L_NoCache, CmNoCache)].
+Definition caching_name (x : caching) : str := match x with CmWriteThrough => L_WriteThrough | CmWriteAround => L_WriteAround | CmNoCache => L_NoCache end.
+Definition caching_ord (x : caching) : Z := match x with CmWriteThrough => 0 | CmWriteAround => 1 | CmNoCache => 2 end.
+
+Inductive irep := IrLinear | IrLogarithmic | IrBoolean | IrPureNumber | IrHexNumber | IrIpV4Address | IrMacAddress.
+Definition irep_tbl : list (str * irep) := [(L_Linear, IrLinear); (L_Logarithmic, IrLogarithmic); (L_Boolean, IrBoolean); (L_PureNumber, IrPureNumber); (L_HexNumber, IrHexNumber); (L_IPV4Address, IrIpV4Address); (L_MACAddress, IrMacAddress)].
+Definition irep_name (x : irep) : str := match x with IrLinear => L_Linear | IrLogarithmic => L_Logarithmic | IrBoolean => L_Boolean | IrPureNumber => L_PureNumber | IrHexNumber => L_HexNumber | IrIpV4Address => L_IPV4Address | IrMacAddress => L_MACAddress end.
+Definition irep_ord (x : irep) : Z := match x with IrLinear => 0 | IrLogarithmic => 1 | IrBoolean => 2 | IrPureNumber => 3 | IrHexNumber => 4 | IrIpV4Address => 5 | IrMacAddress => 6 end.
+
+Inductive frep := FrLinear | FrLogarithmic | FrPureNumber.
+Definition frep_tbl : list (str * frep) := [(L_Linear, FrLinear); (L_Logarithmic, FrLogarithmic); (L_PureNumber, FrPureNumber)].
+Definition frep_name (x : frep) : str := match x with FrLinear => L_Linear | FrLogarithmic => L_Logarithmic | FrPureNumber => L_PureNumber end.
+Definition frep_ord (x : frep) : Z := match x with FrLinear => 0 | FrLogarithmic => 1 | FrPureNumber => 2 end.
+
+Inductive slope := SlIncreasing | SlDecreasing | SlVarying | SlAutomatic.
+Definition slope_tbl : list (str * slope) := [(L_Increasing, SlIncreasing); (L_Decreasing, SlDecreasing); (L_Varying, SlVarying); (L_Automatic, SlAutomatic)].
+Definition slope_name (x : slope) : str := match x with SlIncreasing => L_Increasing | SlDecreasing => L_Decreasing | SlVarying => L_Varying | SlAutomatic => L_Automatic end.
+Definition slope_ord (x : slope) : Z := match x with SlIncreasing => 0 | SlDecreasing => 1 | SlVarying => 2 | SlAutomatic => 3 end.
+
+Inductive dnot := DnAutomatic | DnFixed | DnScientific.
+Definition dnot_tbl : list (str * dnot) := [(L_Automatic, DnAutomatic); (L_Fixed, DnFixed); (L_Scientific, DnScientific)].
+Definition dnot_name (x : dnot) : str := match x with DnAutomatic => L_Automatic | DnFixed => L_Fixed | DnScientific => L_Scientific end.
+Definition dnot_ord (x : dnot) : Z := match x with DnAutomatic => 0 | DnFixed => 1 | DnScientific => 2 end.
+
+Inductive stdns := SnNone | SnIIDC | SnGEV | SnCL | SnUSB.
+Definition stdns_tbl : list (str * stdns) := [(L_None, SnNone); (L_IIDC, SnIIDC); (L_GEV, SnGEV); (L_CL, SnCL); (L_USB, SnUSB)].
+Definition stdns_name (x : stdns) : str := match x with SnNone => L_None | SnIIDC => L_IIDC | SnGEV => L_GEV | SnCL => L_CL | SnUSB => L_USB end.
+Definition stdns_ord (x : stdns) : Z := match x with SnNone => 0 | SnIIDC => 1 | SnGEV => 2 | SnCL => 3 | SnUSB => 4 end.
+
+Inductive endian := EnLE | EnBE.
+Definition endian_tbl : list (str * endian) := [(L_LittleEndian, EnLE); (L_BigEndian, EnBE)].
+Definition endian_name (x : endian) : str := match x with EnLE => L_LittleEndian | EnBE => L_BigEndian end.
+Definition endian_ord (x : endian) : Z := match x with EnLE => 0 | EnBE => 1 end.
+
+Inductive sign := SgSigned | SgUnsigned.
+Definition sign_tbl : list (str * sign) := [(L_Signed, SgSigned); (L_Unsigned, SgUnsigned)].
+Definition sign_name (x : sign) : str := match x with SgSigned => L_Signed | SgUnsigned => L_Unsigned end.
+Definition sign_ord (x : sign) : Z := match x with SgSigned => 0 | SgUnsigned => 1 end.
+
+(* ------------------------------------------------------------------------------------------------ *)
+(* node models.  One family of records serves as the declared node ([Src]: optional elements are options,
+   numbers carry their written form) and as what the parser builds ([Par]: defaults filled in).            *)
+
+Inductive mode := Src | Par.
+Definition D (m : mode) (A : Type) : Type := match m with Src => option A | Par => A end.
+Definition U (m : mode) (A : Type) : Type := match m with Src => unit | Par => A end.
+
+Inductive iform := FmDec | FmHex (px_up dig_up : bool).
+Record ilit := IL { il_form : iform; il_val : Z }.      (* decimal, 0x.. or 0X.. *)
+Record hlit := HL { hl_up : bool; hl_val : Z }.          (* bare hexadecimal (EventID, ChunkID) *)
+Record blit := BL { bl_yesno : bool; bl_val : bool }.    (* Yes/No or true/false *)
+Definition I (m : mode) : Type := match m with Src => ilit | Par => Z end.
+Definition H (m : mode) : Type := match m with Src => hlit | Par => Z end.
+Definition B (m : mode) : Type := match m with Src => blit | Par => bool end.
+Definition X (m : mode) : Type := match m with Src => option (list xml) | Par => unit end.
+
+Record attr (m : mode) := mkAttr {
+  a_name : str; a_ns : D m namespace; a_mp : D m mergeprio; a_es : option (B m) }.
+Arguments a_name {m}. Arguments a_ns {m}. Arguments a_mp {m}. Arguments a_es {m}.
+
+Record eb (m : mode) := mkEb {
+  eb_ext : X m;
+  eb_tooltip : option str; eb_description : option str; eb_display_name : option str;
+  eb_vis : D m vis; eb_docu_url : option str; eb_deprecated : D m (B m); eb_event : option (H m);
+  eb_impl : option str; eb_avail : option str; eb_locked : option str; eb_block : option str;
+  eb_imposed : D m access; eb_errors : list str; eb_alias : option str; eb_cast : option str;
+  eb_invs : list str }.
+Arguments eb_ext {m}. Arguments eb_tooltip {m}. Arguments eb_description {m}. Arguments eb_display_name {m}.
+Arguments eb_vis {m}. Arguments eb_docu_url {m}. Arguments eb_deprecated {m}. Arguments eb_event {m}.
+Arguments eb_impl {m}. Arguments eb_avail {m}. Arguments eb_locked {m}. Arguments eb_block {m}.
+Arguments eb_imposed {m}. Arguments eb_errors {m}. Arguments eb_alias {m}. Arguments eb_cast {m}.
+Arguments eb_invs {m}.
+
+Inductive svkind (L : Type) :=
+| SvValue (v : L)
+| SvPValue (before : list str) (pv : str) (after : list str)
+| SvPIndex (pi : str) (ixs : list (ilit * imm L)) (dflt : imm L).
+Arguments SvValue {L}. Arguments SvPValue {L}. Arguments SvPIndex {L}.
+Inductive vkind (L : Type) :=
+| VkValue (v : L)
+| VkPValue (pv : str) (copies : list str)
+| VkPIndex (pi : str) (ixs : list (Z * imm L)) (dflt : imm L).
+Arguments VkValue {L}. Arguments VkPValue {L}. Arguments VkPIndex {L}.
+Definition VK (m : mode) (L L' : Type) : Type := match m with Src => svkind L | Par => vkind L' end.
+
+Inductive bitmask (L : Type) := BmBit (b : L) | BmRange (lsb msb : L).
+Arguments BmBit {L}. Arguments BmRange {L}.
+
+Record iswiss (m : mode) := mkIswiss {
+  sk_attr : attr m; sk_eb : eb m; sk_streamable : D m (B m);
+  sk_vars : list (str * str); sk_consts : list (str * I m); sk_exprs : list (str * str);
+  sk_formula : str; sk_unit : option str; sk_repr : D m irep }.
+Arguments sk_attr {m}. Arguments sk_eb {m}. Arguments sk_streamable {m}. Arguments sk_vars {m}.
+Arguments sk_consts {m}. Arguments sk_exprs {m}. Arguments sk_formula {m}. Arguments sk_unit {m}.
+Arguments sk_repr {m}.
+
+Inductive saddr := SaAddr (a : imm ilit) | SaSwiss (k : iswiss Src) | SaPIndex (off : option (imm ilit)) (pi : str).
+Inductive addr := AAddr (a : imm Z) | ASwiss (name : str) | APIndex (off : option (imm Z)) (pi : str).
+Definition AK (m : mode) : Type := match m with Src => saddr | Par => addr end.
+
+Record rb (m : mode) := mkRb {
+  rb_eb : eb m; rb_streamable : D m (B m); rb_addrs : list (AK m); rb_length : imm (I m);
+  rb_access : D m access; rb_port : str; rb_cache : D m caching; rb_polling : option (I m);
+  rb_invs : list str }.
+Arguments rb_eb {m}. Arguments rb_streamable {m}. Arguments rb_addrs {m}. Arguments rb_length {m}.
+Arguments rb_access {m}. Arguments rb_port {m}. Arguments rb_cache {m}. Arguments rb_polling {m}.
+Arguments rb_invs {m}.
+
+Record plain (m : mode) := mkPlain { pl_attr : attr m; pl_eb : eb m }.
+Arguments pl_attr {m}. Arguments pl_eb {m}.
+Record category (m : mode) := mkCategory { ca_attr : attr m; ca_eb : eb m; ca_features : list str }.
+Arguments ca_attr {m}. Arguments ca_eb {m}. Arguments ca_features {m}.
+
+Record integer (m : mode) := mkInteger {
+  i_attr : attr m; i_eb : eb m; i_streamable : D m (B m); i_value : VK m ilit Z;
+  i_min : D m (imm (I m)); i_max : D m (imm (I m)); i_inc : D m (imm (I m));
+  i_unit : option str; i_repr : D m irep; i_selected : list str }.
+Arguments i_attr {m}. Arguments i_eb {m}. Arguments i_streamable {m}. Arguments i_value {m}.
+Arguments i_min {m}. Arguments i_max {m}. Arguments i_inc {m}. Arguments i_unit {m}. Arguments i_repr {m}.
+Arguments i_selected {m}.
+
+Record intreg (m : mode) := mkIntreg {
+  ir_attr : attr m; ir_rb : rb m; ir_sign : D m sign; ir_endian : D m endian; ir_unit : option str;
+  ir_repr : D m irep; ir_selected : list str }.
+Arguments ir_attr {m}. Arguments ir_rb {m}. Arguments ir_sign {m}. Arguments ir_endian {m}.
+Arguments ir_unit {m}. Arguments ir_repr {m}. Arguments ir_selected {m}.
+
+Record maskedreg (m : mode) := mkMasked {
+  mr_attr : attr m; mr_rb : rb m; mr_mask : bitmask (I m); mr_sign : D m sign; mr_endian : D m endian;
+  mr_unit : option str; mr_repr : D m irep; mr_selected : list str }.
+Arguments mr_attr {m}. Arguments mr_rb {m}. Arguments mr_mask {m}. Arguments mr_sign {m}.
+Arguments mr_endian {m}. Arguments mr_unit {m}. Arguments mr_repr {m}. Arguments mr_selected {m}.
+
+(* StructEntryNode; in [Src] the entry's own pInvalidator list is [eb_invs (se_eb e)] (that is where the
+   elements stand in the document), in [Par] it is [se_invs] (moved out of the element base by the parser) *)
+Record sentry (m : mode) := mkSentry {
+  se_attr : attr m; se_eb : eb m; se_invs : U m (list str); se_access : D m access; se_cache : D m caching;
+  se_polling : option (I m); se_streamable : D m (B m); se_mask : bitmask (I m); se_sign : D m sign;
+  se_unit : option str; se_repr : D m irep; se_selected : list str }.
+Arguments se_attr {m}. Arguments se_eb {m}. Arguments se_invs {m}. Arguments se_access {m}.
+Arguments se_cache {m}. Arguments se_polling {m}. Arguments se_streamable {m}. Arguments se_mask {m}.
+Arguments se_sign {m}. Arguments se_unit {m}. Arguments se_repr {m}. Arguments se_selected {m}.
+
+Record structreg (m : mode) := mkStruct { st_rb : rb m; st_endian : D m endian; st_entries : list (sentry m) }.
+Arguments st_rb {m}. Arguments st_endian {m}. Arguments st_entries {m}.
+
+Definition BV (m : mode) : Type := match m with Src => imm blit | Par => imm Z end.
+Record boolean (m : mode) := mkBoolean {
+  b_attr : attr m; b_eb : eb m; b_streamable : D m (B m); b_value : BV m; b_on : D m (I m);
+  b_off : D m (I m); b_selected : list str }.
+Arguments b_attr {m}. Arguments b_eb {m}. Arguments b_streamable {m}. Arguments b_value {m}.
+Arguments b_on {m}. Arguments b_off {m}. Arguments b_selected {m}.
+
+Record command (m : mode) := mkCommand {
+  c_attr : attr m; c_eb : eb m; c_value : imm (I m); c_command_value : imm (I m); c_polling : option (I m) }.
+Arguments c_attr {m}. Arguments c_eb {m}. Arguments c_value {m}. Arguments c_command_value {m}.
+Arguments c_polling {m}.
+
+(* EnumEntryNode; the node name of the parsed entry is generated ("$" symbolic "_" fresh id) *)
+Record enumentry (m : mode) := mkEnumentry {
+  ee_attr : attr m; ee_eb : eb m; ee_value : I m; ee_numeric : option fval; ee_symbolic : U m str;
+  ee_self_clearing : D m (B m) }.
+Arguments ee_attr {m}. Arguments ee_eb {m}. Arguments ee_value {m}. Arguments ee_numeric {m}.
+Arguments ee_symbolic {m}. Arguments ee_self_clearing {m}.
+Definition EE (m : mode) : Type := match m with Src => enumentry Src | Par => str end.
+
+Record enumeration (m : mode) := mkEnumeration {
+  en_attr : attr m; en_eb : eb m; en_streamable : D m (B m); en_entries : list (EE m);
+  en_value : imm (I m); en_selected : list str; en_polling : option (I m) }.
+Arguments en_attr {m}. Arguments en_eb {m}. Arguments en_streamable {m}. Arguments en_entries {m}.
+Arguments en_value {m}. Arguments en_selected {m}. Arguments en_polling {m}.
+
+Record floatn (m : mode) := mkFloat {
+  f_attr : attr m; f_eb : eb m; f_streamable : D m (B m); f_value : VK m fval fval;
+  f_min : D m (imm fval); f_max : D m (imm fval); f_inc : option (imm fval); f_unit : option str;
+  f_repr : D m frep; f_dnot : D m dnot; f_dprec : D m (I m) }.
+Arguments f_attr {m}. Arguments f_eb {m}. Arguments f_streamable {m}. Arguments f_value {m}.
+Arguments f_min {m}. Arguments f_max {m}. Arguments f_inc {m}. Arguments f_unit {m}. Arguments f_repr {m}.
+Arguments f_dnot {m}. Arguments f_dprec {m}.
+
+Record floatreg (m : mode) := mkFloatreg {
+  fr_attr : attr m; fr_rb : rb m; fr_endian : D m endian; fr_unit : option str; fr_repr : D m frep;
+  fr_dnot : D m dnot; fr_dprec : D m (I m) }.
+Arguments fr_attr {m}. Arguments fr_rb {m}. Arguments fr_endian {m}. Arguments fr_unit {m}.
+Arguments fr_repr {m}. Arguments fr_dnot {m}. Arguments fr_dprec {m}.
+
+Record stringn (m : mode) := mkString {
+  s_attr : attr m; s_eb : eb m; s_streamable : D m (B m); s_value : imm str }.
+Arguments s_attr {m}. Arguments s_eb {m}. Arguments s_streamable {m}. Arguments s_value {m}.
+
+Record regnode (m : mode) := mkRegnode { rn_attr : attr m; rn_rb : rb m }.
+Arguments rn_attr {m}. Arguments rn_rb {m}.
+
+Record port (m : mode) := mkPort {
+  po_attr : attr m; po_eb : eb m; po_chunk : option (imm (H m)); po_swap : D m (B m); po_cache : D m (B m) }.
+Arguments po_attr {m}. Arguments po_eb {m}. Arguments po_chunk {m}. Arguments po_swap {m}. Arguments po_cache {m}.
+
+(* what NodeStoreBuilder::store_node receives *)
+Inductive node_data :=
+| NdNode (n : plain Par) | NdCategory (n : category Par) | NdInteger (n : integer Par)
+| NdIntReg (n : intreg Par) | NdMaskedIntReg (n : maskedreg Par) | NdBoolean (n : boolean Par)
+| NdCommand (n : command Par) | NdEnumeration (n : enumeration Par) | NdEnumEntry (n : enumentry Par)
+| NdFloat (n : floatn Par) | NdFloatReg (n : floatreg Par) | NdString (n : stringn Par)
+| NdStringReg (n : regnode Par) | NdRegister (n : regnode Par) | NdIntSwissKnife (n : iswiss Par)
+| NdPort (n : port Par).
+
+Definition nd_name (d : node_data) : str :=
+  match d with
+  | NdNode n => a_name (pl_attr n) | NdCategory n => a_name (ca_attr n) | NdInteger n => a_name (i_attr n)
+  | NdIntReg n => a_name (ir_attr n) | NdMaskedIntReg n => a_name (mr_attr n)
+  | NdBoolean n => a_name (b_attr n) | NdCommand n => a_name (c_attr n)
+  | NdEnumeration n => a_name (en_attr n) | NdEnumEntry n => a_name (ee_attr n)
+  | NdFloat n => a_name (f_attr n) | NdFloatReg n => a_name (fr_attr n) | NdString n => a_name (s_attr n)
+  | NdStringReg n => a_name (rn_attr n) | NdRegister n => a_name (rn_attr n)
+  | NdIntSwissKnife n => a_name (sk_attr n) | NdPort n => a_name (po_attr n)
+  end.
+
+(* ------------------------------------------------------------------------------------------------ *)
+(* parsers                                                                                           *)
+
+Definition dflt {A} (d : A) (o : option A) : A := match o with Some x => x | None => d end.
+
+(* NodeAttributeBase::parse *)
+Definition parse_attr (attrs : list (str * str)) : outcome (attr Par) :=
+  match attribute_of T_Name attrs with
+  | None => Panic
+  | Some name =>
+    let? ns := match attribute_of T_NameSpace attrs with
+               | Some t => attr_enum namespace_tbl t | None => Ok NsCustom end in
+    let? mp := match attribute_of T_MergePriority attrs with
+               | Some t => attr_enum mergeprio_tbl t | None => Ok MpMid end in
+    let? es := match attribute_of T_ExposeStatic attrs with
+               | Some t => omap Some (convert_to_bool t) | None => Ok None end in
+    Ok (mkAttr Par name ns mp es)
+  end.
+
+(* NodeElementBase::parse *)
+Definition p_eb : P (eb Par) :=
+  let! _ext := parse_if T_Extension p_string in
+  let! tooltip := parse_if T_ToolTip p_string in
+  let! description := parse_if T_Description p_string in
+  let! display_name := parse_if T_DisplayName p_string in
+  let! v := parse_if T_Visibility (p_enum vis_tbl) in
+  let! docu := parse_if T_DocuURL p_string in
+  let! dep := parse_if T_IsDeprecated p_bool in
+  let! ev := parse_if T_EventID p_hex64 in
+  let! impl := parse_if T_pIsImplemented p_nodeid in
+  let! avail := parse_if T_pIsAvailable p_nodeid in
+  let! locked := parse_if T_pIsLocked p_nodeid in
+  let! block := parse_if T_pBlockPolling p_nodeid in
+  let! imposed := parse_if T_ImposedAccessMode (p_enum access_tbl) in
+  let! errors := parse_while T_pError p_nodeid in
+  let! alias := parse_if T_pAlias p_nodeid in
+  let! cast := parse_if T_pCastAlias p_nodeid in
+  let! invs := parse_while T_pInvalidator p_nodeid in
+  ret (mkEb Par tt tooltip description display_name (dflt VBeginner v) docu (dflt false dep) ev impl avail
+            locked block (dflt AmRW imposed) errors alias cast invs).
+
+(* PValue::parse, ValueIndexed::parse, PIndex::parse, ValueKind::parse *)
+Definition p_pvalue : P (str * list str) :=
+  let! before := parse_while T_pValueCopy p_nodeid in
+  let! pv := p_nodeid in
+  let! after := parse_while T_pValueCopy p_nodeid in
+  ret (pv, before ++ after).
+Definition p_value_indexed {L} (p_immT : P (imm L)) : P (Z * imm L) :=
+  let! ix := peek_attr T_Index in
+  match ix with
+  | None => fail
+  | Some s => let! i := lift (convert_to_int s) in let! v := p_immT in ret (i, v)
+  end.
+Definition p_pindex {L} (p_immT : P (imm L)) : P (str * list (Z * imm L) * imm L) :=
+  let! pi := p_nodeid in
+  let! ixs := loop (or_else (parse_if T_ValueIndexed (p_value_indexed p_immT))
+                            (parse_if T_pValueIndexed (p_value_indexed p_immT))) in
+  let! d := p_immT in
+  ret (pi, ixs, d).
+Definition p_vkind {L} (pT : P L) (p_immT : P (imm L)) : P (vkind L) :=
+  let! t := peek_tag in
+  if str_eqb t T_Value then mapP VkValue pT
+  else if str_eqb t T_pValueCopy || str_eqb t T_pValue then
+    let! r := p_pvalue in ret (VkPValue (fst r) (snd r))
+  else if str_eqb t T_pIndex then
+    let! r := p_pindex p_immT in ret (VkPIndex (fst (fst r)) (snd (fst r)) (snd r))
+  else fail.
+
+(* NamedValue::parse *)
+Definition p_named {A} (p : P A) : P (str * A) :=
+  let! n := peek_attr T_Name in
+  match n with None => fail | Some name => let! v := p in ret (name, v) end.
+
+(* BitMask::parse *)
+Definition p_bitmask : P (bitmask Z) :=
+  let! b := parse_if T_Bit p_u64 in
+  match b with
+  | Some x => ret (BmBit x)
+  | None => let! lsb := p_u64 in let! msb := p_u64 in ret (BmRange lsb msb)
+  end.
+
+(* a parser applied to a nested element: attributes + own cursor, left-over children are ignored *)
+Definition run_elem {A} (p : list (str * str) -> P A) (attrs : list (str * str)) (ch : list xml) : outcome A :=
+  match p attrs ch with Ok (a, _) => Ok a | Err e => Err e | Panic => Panic end.
+
+Definition with_attr {A} (attrs : list (str * str)) (f : attr Par -> P A) : P A :=
+  match parse_attr attrs with Ok a => f a | Err e => fun _ => Err e | Panic => fail end.
+
+(* IntSwissKnifeNode::parse (the formula and the expressions are kept as text) *)
+Definition p_iswiss (attrs : list (str * str)) : P (iswiss Par) :=
+  with_attr attrs (fun a =>
+  let! e := p_eb in
+  let! st := parse_if T_Streamable p_bool in
+  let! vars := parse_while T_pVariable (p_named p_nodeid) in
+  let! consts := parse_while T_Constant (p_named p_i64) in
+  let! exprs := parse_while T_Expression (p_named p_string) in
+  let! formula := p_string in
+  let! unit := parse_if T_Unit p_string in
+  let! repr := parse_if T_Representation (p_enum irep_tbl) in
+  ret (mkIswiss Par a e (dflt false st) vars consts exprs formula unit (dflt IrPureNumber repr))).
+
+(* RegPIndex::parse *)
+Definition p_reg_pindex : P addr :=
+  let! o := peek_attr T_Offset in
+  let! po := peek_attr T_pOffset in
+  let! io := match o with
+             | Some s => let! z := lift (convert_to_int s) in ret (Some (@Imm Z z))
+             | None => ret None
+             end in
+  let off := match io, po with
+             | Some x, None => Some x
+             | None, Some n => Some (PNode n)
+             | _, _ => None
+             end in
+  let! pi := p_nodeid in
+  ret (APIndex off pi).
+
+(* AddressKind::parse; an embedded IntSwissKnife is stored as a node of its own *)
+Definition p_addr : P (addr * list node_data) :=
+  let! t := peek_tag in
+  if str_eqb t T_Address || str_eqb t T_pAddress then let! a := p_imm_i64 in ret (AAddr a, [])
+  else if str_eqb t T_IntSwissKnife then
+    let! e := next_elem in
+    match e with
+    | Some (_, attrs, ch) => let! k := lift (run_elem p_iswiss attrs ch) in
+                             ret (ASwiss (a_name (sk_attr k)), [NdIntSwissKnife k])
+    | None => fail
+    end
+  else if str_eqb t T_pIndex then let! a := p_reg_pindex in ret (a, [])
+  else fail.
+
+(* RegisterBase::parse; second component: the embedded nodes stored on the way *)
+Definition p_rb : P (rb Par * list node_data) :=
+  let! e := p_eb in
+  let! st := parse_if T_Streamable p_bool in
+  let! addrs := loop (or_else (parse_if T_Address p_addr)
+                     (or_else (parse_if T_IntSwissKnife p_addr)
+                     (or_else (parse_if T_pAddress p_addr) (parse_if T_pIndex p_addr)))) in
+  let! len := p_imm_i64 in
+  let! am := parse_if T_AccessMode (p_enum access_tbl) in
+  let! port := p_nodeid in
+  let! cache := parse_if T_Cachable (p_enum caching_tbl) in
+  let! polling := parse_if T_PollingTime p_u64 in
+  let! invs := parse_while T_pInvalidator p_nodeid in
+  match eb_invs e with
+  | _ :: _ => fail                                       (* debug_assert!(elem_base.p_invalidators.is_empty()) *)
+  | [] => ret (mkRb Par e (dflt false st) (map fst addrs) len (dflt AmRO am) port (dflt CmWriteThrough cache)
+                    polling invs, List.concat (map snd addrs))
+  end.
+
+(* RegisterBase::store_invalidators *)
+Definition reg_invs (r : rb Par) (target : str) : list (str * str) := map (fun i => (i, target)) (rb_invs r).
+
+Definition p_plain (attrs : list (str * str)) : P (plain Par) :=
+  with_attr attrs (fun a => let! e := p_eb in ret (mkPlain Par a e)).
+
+Definition p_category (attrs : list (str * str)) : P (category Par) :=
+  with_attr attrs (fun a =>
+  let! e := p_eb in
+  let! fs := parse_while T_pFeature p_nodeid in
+  ret (mkCategory Par a e fs)).
+
+Definition deduce_min (r : irep) : Z := match r with IrIpV4Address | IrMacAddress => 0 | _ => I64_MIN end.
+Definition deduce_max (r : irep) : Z :=
+  match r with IrIpV4Address => 4294967295 | IrMacAddress => 281474976710655 | _ => I64_MAX end.
+
+Definition p_integer (attrs : list (str * str)) : P (integer Par) :=
+  with_attr attrs (fun a =>
+  let! e := p_eb in
+  let! st := parse_if T_Streamable p_bool in
+  let! vk := p_vkind p_i64 p_imm_i64 in
+  let! mn := or_else (parse_if T_Min p_imm_i64) (parse_if T_pMin p_imm_i64) in
+  let! mx := or_else (parse_if T_Max p_imm_i64) (parse_if T_pMax p_imm_i64) in
+  let! inc := or_else (parse_if T_Inc p_imm_i64) (parse_if T_pInc p_imm_i64) in
+  let! unit := parse_if T_Unit p_string in
+  let! repr := parse_if T_Representation (p_enum irep_tbl) in
+  let! sel := parse_while T_pSelected p_nodeid in
+  let r := dflt IrPureNumber repr in
+  ret (mkInteger Par a e (dflt false st) vk (dflt (Imm (deduce_min r)) mn) (dflt (Imm (deduce_max r)) mx)
+                 (dflt (Imm 1) inc) unit r sel)).
+
+Definition p_intreg (attrs : list (str * str)) : P (intreg Par * list node_data) :=
+  with_attr attrs (fun a =>
+  let! r := p_rb in
+  let! sg := parse_if T_Sign (p_enum sign_tbl) in
+  let! en := parse_if T_Endianess (p_enum endian_tbl) in
+  let! unit := parse_if T_Unit p_string in
+  let! repr := parse_if T_Representation (p_enum irep_tbl) in
+  let! sel := parse_while T_pSelected p_nodeid in
+  ret (mkIntreg Par a (fst r) (dflt SgUnsigned sg) (dflt EnLE en) unit (dflt IrPureNumber repr) sel, snd r)).
+
+Definition p_masked (attrs : list (str * str)) : P (maskedreg Par * list node_data) :=
+  with_attr attrs (fun a =>
+  let! r := p_rb in
+  let! bm := p_bitmask in
+  let! sg := parse_if T_Sign (p_enum sign_tbl) in
+  let! en := parse_if T_Endianess (p_enum endian_tbl) in
+  let! unit := parse_if T_Unit p_string in
+  let! repr := parse_if T_Representation (p_enum irep_tbl) in
+  let! sel := parse_while T_pSelected p_nodeid in
+  ret (mkMasked Par a (fst r) bm (dflt SgUnsigned sg) (dflt EnLE en) unit (dflt IrPureNumber repr) sel, snd r)).
+
+(* StructEntryNode::parse.  [fixed = true]: the code after 70ffa75 (the entry's pInvalidator list is taken
+   out of the element base); [fixed = false]: the pinned code (the list stays in the element base and
+   parse_while(P_INVALIDATOR) finds nothing any more) *)
+Definition p_sentry (fixed : bool) (attrs : list (str * str)) : P (sentry Par) :=
+  with_attr attrs (fun a =>
+  let! e0 := p_eb in
+  let! invs0 := (if fixed then ret [] else parse_while T_pInvalidator p_nodeid) in
+  let e := if fixed then mkEb Par tt (eb_tooltip e0) (eb_description e0) (eb_display_name e0) (eb_vis e0)
+                               (eb_docu_url e0) (eb_deprecated e0) (eb_event e0) (eb_impl e0) (eb_avail e0)
+                               (eb_locked e0) (eb_block e0) (eb_imposed e0) (eb_errors e0) (eb_alias e0)
+                               (eb_cast e0) []
+           else e0 in
+  let invs := if fixed then eb_invs e0 else invs0 in
+  let! am := parse_if T_AccessMode (p_enum access_tbl) in
+  let! cache := parse_if T_Cachable (p_enum caching_tbl) in
+  let! polling := parse_if T_PollingTime p_u64 in
+  let! st := parse_if T_Streamable p_bool in
+  let! bm := p_bitmask in
+  let! sg := parse_if T_Sign (p_enum sign_tbl) in
+  let! unit := parse_if T_Unit p_string in
+  let! repr := parse_if T_Representation (p_enum irep_tbl) in
+  let! sel := parse_while T_pSelected p_nodeid in
+  ret (mkSentry Par a e invs (dflt AmRO am) (dflt CmWriteThrough cache) polling (dflt false st) bm
+                (dflt SgUnsigned sg) unit (dflt IrPureNumber repr) sel)).
+
+(* while let Some(entry_node) = node.next() { entry_node.parse() } (debug_assert_eq!(tag, STRUCT_ENTRY)) *)
+Fixpoint p_sentries (fixed : bool) (c : list xml) : outcome (list (sentry Par)) :=
+  match c with
+  | [] => Ok []
+  | Elem t attrs ch :: r =>
+      if str_eqb t T_StructEntry then
+        let? e := run_elem (p_sentry fixed) attrs ch in
+        let? es := p_sentries fixed r in Ok (e :: es)
+      else Panic
+  | _ :: r => p_sentries fixed r
+  end.
+
+Definition p_struct (fixed : bool) : P (structreg Par * list node_data) :=
+  let! r := p_rb in
+  let! en := parse_if T_Endianess (p_enum endian_tbl) in
+  fun c => let? es := p_sentries fixed c in Ok ((mkStruct Par (fst r) (dflt EnLE en) es, snd r), @nil xml).
+
+(* merge_impl! *)
+Definition merge_opt {A} (lhs rhs : option A) : option A := match rhs with Some x => Some x | None => lhs end.
+Definition merge_vec {A} (fixed : bool) (lhs rhs : list A) : list A :=
+  match rhs with
+  | [] => if fixed then lhs else []
+  | _ :: _ => if fixed then rhs else lhs
+  end.
+Definition vis_is_default (v : vis) : bool := match v with VBeginner => true | _ => false end.
+Definition access_eqb (a b : access) : bool := access_ord a =? access_ord b.
+Definition caching_is_default (c : caching) : bool := match c with CmWriteThrough => true | _ => false end.
+
+(* NodeElementBase::merge (the element-base pInvalidator list is not merged) *)
+Definition merge_eb (fixed : bool) (l r : eb Par) : eb Par :=
+  mkEb Par tt
+    (merge_opt (eb_tooltip l) (eb_tooltip r)) (merge_opt (eb_description l) (eb_description r))
+    (merge_opt (eb_display_name l) (eb_display_name r))
+    (if vis_is_default (eb_vis r) then eb_vis l else eb_vis r)
+    (merge_opt (eb_docu_url l) (eb_docu_url r))
+    (if eb_deprecated r then true else eb_deprecated l)
+    (merge_opt (eb_event l) (eb_event r)) (merge_opt (eb_impl l) (eb_impl r))
+    (merge_opt (eb_avail l) (eb_avail r)) (merge_opt (eb_locked l) (eb_locked r))
+    (merge_opt (eb_block l) (eb_block r))
+    (if access_eqb (eb_imposed r) AmRW then eb_imposed l else eb_imposed r)
+    (merge_vec fixed (eb_errors l) (eb_errors r))
+    (merge_opt (eb_alias l) (eb_alias r)) (merge_opt (eb_cast l) (eb_cast r))
+    (eb_invs l).
+
+(* StructEntryNode::into_masked_int_reg *)
+Definition entry_to_masked (fixed : bool) (r : rb Par) (en : endian) (e : sentry Par) : maskedreg Par :=
+  let r' := mkRb Par (merge_eb fixed (rb_eb r) (se_eb e))
+                 (if se_streamable e then true else rb_streamable r)
+                 (rb_addrs r) (rb_length r)
+                 (if access_eqb (se_access e) AmRO then rb_access r else se_access e)
+                 (rb_port r)
+                 (if caching_is_default (se_cache e) then rb_cache r else se_cache e)
+                 (merge_opt (rb_polling r) (se_polling e))
+                 (merge_vec fixed (rb_invs r) (se_invs e)) in
+  mkMasked Par (se_attr e) r' (se_mask e) (se_sign e) en (se_unit e) (se_repr e) (se_selected e).
+
+(* StructRegNode::into_masked_int_regs and the invalidator registrations it performs *)
+Definition into_masked_int_regs (fixed : bool) (s : structreg Par) : list (maskedreg Par) :=
+  map (entry_to_masked fixed (st_rb s) (st_endian s)) (st_entries s).
+Definition masked_invs (l : list (maskedreg Par)) : list (str * str) :=
+  List.concat (map (fun m => reg_invs (mr_rb m) (a_name (mr_attr m))) l).
+
+Definition p_boolean (attrs : list (str * str)) : P (boolean Par) :=
+  with_attr attrs (fun a =>
+  let! e := p_eb in
+  let! st := parse_if T_Streamable p_bool in
+  let! v := p_imm_bool in
+  let! on := parse_if T_OnValue p_i64 in
+  let! off := parse_if T_OffValue p_i64 in
+  let! sel := parse_while T_pSelected p_nodeid in
+  let onv := dflt 1 on in
+  let offv := dflt 0 off in
+  let v' := match v with Imm b => Imm (if b then onv else offv) | PNode n => PNode n end in
+  ret (mkBoolean Par a e (dflt false st) v' onv offv sel)).
+
+Definition p_command (attrs : list (str * str)) : P (command Par) :=
+  with_attr attrs (fun a =>
+  let! e := p_eb in
+  let! v := p_imm_i64 in
+  let! cv := p_imm_i64 in
+  let! polling := parse_if T_PollingTime p_u64 in
+  ret (mkCommand Par a e v cv polling)).
+
+(* EnumEntryNode::parse : the name is "$" symbolic "_" fresh_id *)
+Definition p_enumentry (fresh : Z) (attrs : list (str * str)) : P (enumentry Par) :=
+  match attribute_of T_Name attrs with
+  | None => fail
+  | Some symbolic =>
+    with_attr attrs (fun a0 =>
+    let a := mkAttr Par (36 :: symbolic ++ 95 :: print_dec fresh) (a_ns a0) (a_mp a0) (a_es a0) in
+    let! e := p_eb in
+    let! v := p_i64 in
+    let! num := parse_if T_NumericValue p_f64 in
+    let! sc := parse_if T_IsSelfClearing p_bool in
+    ret (mkEnumentry Par a e v num symbolic (dflt false sc)))
+  end.
+
+(* while let Some(ent_node) = node.next_if(ENUM_ENTRY) *)
+Fixpoint p_enumentries (fuel : nat) (fresh : Z) : P (list (enumentry Par)) :=
+  match fuel with
+  | O => fun _ => Err E_FUEL
+  | S f => let! x := next_if T_EnumEntry in
+           match x with
+           | Some (attrs, ch) =>
+               let! e := lift (run_elem (p_enumentry fresh) attrs ch) in
+               let! r := p_enumentries f (fresh + 1) in ret (e :: r)
+           | None => ret []
+           end
+  end.
+
+Definition p_enumeration (fresh : Z) (attrs : list (str * str)) : P (enumeration Par * list node_data) :=
+  with_attr attrs (fun a =>
+  let! e := p_eb in
+  let! st := parse_if T_Streamable p_bool in
+  let! ents := (fun c => p_enumentries (S (List.length c)) fresh c) in
+  let! v := p_imm_i64 in
+  let! sel := parse_while T_pSelected p_nodeid in
+  let! polling := parse_if T_PollingTime p_u64 in
+  ret (mkEnumeration Par a e (dflt false st) (map (fun x => a_name (ee_attr x)) ents) v sel polling,
+       map NdEnumEntry ents)).
+
+Definition F64_MIN_BITS : Z := 18442240474082181119.   (* 0xFFEFFFFFFFFFFFFF = f64::MIN *)
+Definition F64_MAX_BITS : Z := 9218868437227405311.    (* 0x7FEFFFFFFFFFFFFF = f64::MAX *)
+
+Definition p_float (attrs : list (str * str)) : P (floatn Par) :=
+  with_attr attrs (fun a =>
+  let! e := p_eb in
+  let! st := parse_if T_Streamable p_bool in
+  let! vk := p_vkind p_f64 p_imm_f64 in
+  let! mn := or_else (parse_if T_Min p_imm_f64) (parse_if T_pMin p_imm_f64) in
+  let! mx := or_else (parse_if T_Max p_imm_f64) (parse_if T_pMax p_imm_f64) in
+  let! inc := or_else (parse_if T_Inc p_imm_f64) (parse_if T_pInc p_imm_f64) in
+  let! unit := parse_if T_Unit p_string in
+  let! repr := parse_if T_Representation (p_enum frep_tbl) in
+  let! dn := parse_if T_DisplayNotation (p_enum dnot_tbl) in
+  let! dp := parse_if T_DisplayPrecision p_i64 in
+  ret (mkFloat Par a e (dflt false st) vk (dflt (Imm (FvBits F64_MIN_BITS)) mn)
+               (dflt (Imm (FvBits F64_MAX_BITS)) mx) inc unit (dflt FrPureNumber repr)
+               (dflt DnAutomatic dn) (dflt 6 dp))).
+
+Definition p_floatreg (attrs : list (str * str)) : P (floatreg Par * list node_data) :=
+  with_attr attrs (fun a =>
+  let! r := p_rb in
+  let! en := parse_if T_Endianess (p_enum endian_tbl) in
+  let! unit := parse_if T_Unit p_string in
+  let! repr := parse_if T_Representation (p_enum frep_tbl) in
+  let! dn := parse_if T_DisplayNotation (p_enum dnot_tbl) in
+  let! dp := parse_if T_DisplayPrecision p_i64 in
+  ret (mkFloatreg Par a (fst r) (dflt EnLE en) unit (dflt FrPureNumber repr) (dflt DnAutomatic dn)
+                  (dflt 6 dp), snd r)).
+
+Definition p_stringn (attrs : list (str * str)) : P (stringn Par) :=
+  with_attr attrs (fun a =>
+  let! e := p_eb in
+  let! st := parse_if T_Streamable p_bool in
+  let! v := next_if T_Value in
+  let! value := match v with
+                | Some (_, ch) => ret (Imm (text_of ch))
+                | None => mapP PNode next_text
+                end in
+  ret (mkString Par a e (dflt false st) value)).
+
+Definition p_regnode (attrs : list (str * str)) : P (regnode Par * list node_data) :=
+  with_attr attrs (fun a => let! r := p_rb in ret (mkRegnode Par a (fst r), snd r)).
+
+Definition p_port (attrs : list (str * str)) : P (port Par) :=
+  with_attr attrs (fun a =>
+  let! e := p_eb in
+  let! c := next_if T_ChunkID in
+  let! chunk := match c with
+                | Some (_, ch) => let! z := lift (from_str_radix false 16 (text_of ch)) in ret (Some (@Imm Z z))
+                | None => let! pc := next_if T_pChunkID in
+                          match pc with
+                          | Some (_, ch) => ret (Some (PNode (text_of ch)))
+                          | None => ret None
+                          end
+                end in
+  let! sw := parse_if T_SwapEndianess p_bool in
+  let! cc := parse_if T_CacheChunkData p_bool in
+  ret (mkPort Par a e chunk (dflt false sw) (dflt false cc))).
+
+(* ------------------------------------------------------------------------------------------------ *)
+(* dispatch on the tag (mod.rs), Group flattening, the document                                      *)
+
+Definition E_UNMODELLED : Z := 98.
+
+(* result of parsing one child of the document / of a group: nodes stored while parsing (enum entries,
+   embedded swiss knives), nodes handed back to the caller, invalidator registrations, next fresh id *)
+Record presult := mkPres {
+  pr_stored : list node_data; pr_ret : list node_data; pr_invs : list (str * str); pr_fresh : Z }.
+
+Definition pres1 (fresh : Z) (d : node_data) : presult := mkPres [] [d] [] fresh.
+Definition on_ok {A} (x : outcome (A * list xml)) (f : A -> presult) : outcome presult :=
+  match x with Ok (a, _) => Ok (f a) | Err e => Err e | Panic => Panic end.
+
+Definition parse_leaf (fixed : bool) (fresh : Z) (tag : str) (attrs : list (str * str)) (ch : list xml)
+  : outcome presult :=
+  if str_eqb tag T_Node then on_ok (p_plain attrs ch) (fun n => pres1 fresh (NdNode n))
+  else if str_eqb tag T_Category then on_ok (p_category attrs ch) (fun n => pres1 fresh (NdCategory n))
+  else if str_eqb tag T_Integer then on_ok (p_integer attrs ch) (fun n => pres1 fresh (NdInteger n))
+  else if str_eqb tag T_IntReg then
+    on_ok (p_intreg attrs ch)
+          (fun n => mkPres (snd n) [NdIntReg (fst n)] (reg_invs (ir_rb (fst n)) (a_name (ir_attr (fst n)))) fresh)
+  else if str_eqb tag T_MaskedIntReg then
+    on_ok (p_masked attrs ch)
+          (fun n => mkPres (snd n) [NdMaskedIntReg (fst n)]
+                           (reg_invs (mr_rb (fst n)) (a_name (mr_attr (fst n)))) fresh)
+  else if str_eqb tag T_Boolean then on_ok (p_boolean attrs ch) (fun n => pres1 fresh (NdBoolean n))
+  else if str_eqb tag T_Command then on_ok (p_command attrs ch) (fun n => pres1 fresh (NdCommand n))
+  else if str_eqb tag T_Enumeration then
+    on_ok (p_enumeration fresh attrs ch)
+          (fun n => mkPres (snd n) [NdEnumeration (fst n)] [] (fresh + Z.of_nat (List.length (snd n))))
+  else if str_eqb tag T_Float then on_ok (p_float attrs ch) (fun n => pres1 fresh (NdFloat n))
+  else if str_eqb tag T_FloatReg then
+    on_ok (p_floatreg attrs ch)
+          (fun n => mkPres (snd n) [NdFloatReg (fst n)] (reg_invs (fr_rb (fst n)) (a_name (fr_attr (fst n)))) fresh)
+  else if str_eqb tag T_String then on_ok (p_stringn attrs ch) (fun n => pres1 fresh (NdString n))
+  else if str_eqb tag T_StringReg then
+    on_ok (p_regnode attrs ch)
+          (fun n => mkPres (snd n) [NdStringReg (fst n)] (reg_invs (rn_rb (fst n)) (a_name (rn_attr (fst n)))) fresh)
+  else if str_eqb tag T_Register then
+    on_ok (p_regnode attrs ch)
+          (fun n => mkPres (snd n) [NdRegister (fst n)] (reg_invs (rn_rb (fst n)) (a_name (rn_attr (fst n)))) fresh)
+  else if str_eqb tag T_IntSwissKnife then
+    on_ok (p_iswiss attrs ch) (fun n => pres1 fresh (NdIntSwissKnife n))
+  else if str_eqb tag T_Port then on_ok (p_port attrs ch) (fun n => pres1 fresh (NdPort n))
+  else if str_eqb tag T_StructReg then
+    on_ok (p_struct fixed ch)
+          (fun n => let ms := into_masked_int_regs fixed (fst n) in
+                    mkPres (snd n) (map NdMaskedIntReg ms) (masked_invs ms) fresh)
+  else if str_eqb tag T_Converter || str_eqb tag T_IntConverter || str_eqb tag T_SwissKnife then
+    Err E_UNMODELLED
+  else Panic.      (* todo!() for the DCAM kinds, unreachable!() otherwise *)
+
+Definition pres_app (a b : presult) : presult :=
+  mkPres (pr_stored a ++ pr_stored b) (pr_ret a ++ pr_ret b) (pr_invs a ++ pr_invs b) (pr_fresh b).
+
+(* Vec<NodeData>::parse: a Group hands back the nodes of all its children *)
+Fixpoint parse_node (fixed : bool) (fresh : Z) (x : xml) {struct x} : outcome presult :=
+  match x with
+  | Elem tag attrs ch =>
+      if str_eqb tag T_Group then
+        (fix go (c : list xml) (acc : presult) {struct c} : outcome presult :=
+           match c with
+           | [] => Ok acc
+           | y :: r => match y with
+                       | Elem _ _ _ => let? p := parse_node fixed (pr_fresh acc) y in go r (pres_app acc p)
+                       | _ => go r acc
+                       end
+           end) ch (mkPres [] [] [] fresh)
+      else parse_leaf fixed fresh tag attrs ch
+  | _ => Panic
+  end.
+
+Record regdesc := mkRegdesc {
+  rd_model : str; rd_vendor : str; rd_tooltip : option str; rd_stdns : stdns;
+  rd_versions : list Z; rd_product_guid : str; rd_version_guid : str }.
+
+Definition req_attr (name : str) (attrs : list (str * str)) : outcome str :=
+  match attribute_of name attrs with Some s => Ok s | None => Panic end.
+
+(* RegisterDescription::parse *)
+Definition parse_regdesc (attrs : list (str * str)) : outcome regdesc :=
+  let? model := req_attr T_ModelName attrs in
+  let? vendor := req_attr T_VendorName attrs in
+  let? sn := req_attr T_StandardNameSpace attrs in
+  let? sn := attr_enum stdns_tbl sn in
+  let? v1 := (let? s := req_attr T_SchemaMajorVersion attrs in convert_to_uint s) in
+  let? v2 := (let? s := req_attr T_SchemaMinorVersion attrs in convert_to_uint s) in
+  let? v3 := (let? s := req_attr T_SchemaSubMinorVersion attrs in convert_to_uint s) in
+  let? v4 := (let? s := req_attr T_MajorVersion attrs in convert_to_uint s) in
+  let? v5 := (let? s := req_attr T_MinorVersion attrs in convert_to_uint s) in
+  let? v6 := (let? s := req_attr T_SubMinorVersion attrs in convert_to_uint s) in
+  let? pg := req_attr T_ProductGuid attrs in
+  let? vg := req_attr T_VersionGuid attrs in
+  Ok (mkRegdesc model vendor (attribute_of T_ToolTip attrs) sn [v1; v2; v3; v4; v5; v6] pg vg).
+
+(* DefaultNodeStore::store_node: debug_assert!(self.store[id].is_none()) *)
+Fixpoint store_all (st : list node_data) (l : list node_data) : outcome (list node_data) :=
+  match l with
+  | [] => Ok st
+  | d :: r => if existsb (fun x => str_eqb (nd_name x) (nd_name d)) st then Panic
+              else store_all (st ++ [d]) r
+  end.
+
+Record store := mkStore { s_nodes : list node_data; s_invs : list (str * str) }.
+
+Fixpoint parse_children (fixed : bool) (c : list xml) (fresh : Z) (st : store) : outcome store :=
+  match c with
+  | [] => Ok st
+  | Elem t a ch :: r =>
+      let? p := parse_node fixed fresh (Elem t a ch) in
+      let? ns := store_all (s_nodes st) (pr_stored p ++ pr_ret p) in
+      parse_children fixed r (pr_fresh p) (mkStore ns (s_invs st ++ pr_invs p))
+  | _ :: r => parse_children fixed r fresh st
+  end.
+
+(* parser::parse on the root element *)
+Definition parse_doc (fixed : bool) (root : xml) : outcome (regdesc * store) :=
+  match root with
+  | Elem tag attrs ch =>
+      if negb (str_eqb tag T_RegisterDescription) then Panic else
+      let? rd := parse_regdesc attrs in
+      let? st := parse_children fixed ch 0 (mkStore [] []) in
+      Ok (rd, st)
+  | _ => Panic
+  end.
+
+(* ------------------------------------------------------------------------------------------------ *)
+(* renderer: declared node -> elements in schema order, optional elements present / absent             *)
+
+Definition txt (s : str) : list xml := match s with [] => [] | _ => [Text s] end.
+Definition el (tag s : str) : xml := Elem tag [] (txt s).
+Definition ropt {A} (tag : str) (sh : A -> str) (o : option A) (k : list xml) : list xml :=
+  match o with Some x => el tag (sh x) :: k | None => k end.
+Definition rmany {A} (tag : str) (sh : A -> str) (l : list A) (k : list xml) : list xml :=
+  map (fun x => el tag (sh x)) l ++ k.
+Definition sid (s : str) : str := s.
+
+Definition sh_ilit (l : ilit) : str :=
+  match il_form l with
+  | FmDec => print_dec (il_val l)
+  | FmHex px dg => 48 :: (if px then 88 else 120) :: print_nat dg 16 (il_val l)
+  end.
+Definition sh_hlit (l : hlit) : str := print_nat (hl_up l) 16 (hl_val l).
+Definition sh_blit (l : blit) : str :=
+  if bl_yesno l then (if bl_val l then L_Yes else L_No) else (if bl_val l then L_true else L_false).
+Definition sh_fval (f : fval) : str :=
+  match f with FvInf => L_INF | FvNegInf => L_NegINF | FvText t => t | FvBits _ => [] end.
+
+Definition rimm {L} (tagI tagP : str) (sh : L -> str) (x : imm L) (k : list xml) : list xml :=
+  match x with Imm l => el tagI (sh l) :: k | PNode n => el tagP n :: k end.
+Definition roimm {L} (tagI tagP : str) (sh : L -> str) (o : option (imm L)) (k : list xml) : list xml :=
+  match o with Some x => rimm tagI tagP sh x k | None => k end.
+
+Definition oattr {A} (key : str) (sh : A -> str) (o : option A) (k : list (str * str)) : list (str * str) :=
+  match o with Some x => (key, sh x) :: k | None => k end.
+Definition r_attr (a : attr Src) : list (str * str) :=
+  (T_Name, a_name a) :: oattr T_NameSpace namespace_name (a_ns a)
+    (oattr T_MergePriority mergeprio_name (a_mp a) (oattr T_ExposeStatic sh_blit (a_es a) [])).
+
+Definition r_eb (e : eb Src) (k : list xml) : list xml :=
+  (match eb_ext e with Some ch => fun k => Elem T_Extension [] ch :: k | None => fun k => k end)
+  (ropt T_ToolTip sid (eb_tooltip e) (ropt T_Description sid (eb_description e)
+  (ropt T_DisplayName sid (eb_display_name e) (ropt T_Visibility vis_name (eb_vis e)
+  (ropt T_DocuURL sid (eb_docu_url e) (ropt T_IsDeprecated sh_blit (eb_deprecated e)
+  (ropt T_EventID sh_hlit (eb_event e) (ropt T_pIsImplemented sid (eb_impl e)
+  (ropt T_pIsAvailable sid (eb_avail e) (ropt T_pIsLocked sid (eb_locked e)
+  (ropt T_pBlockPolling sid (eb_block e) (ropt T_ImposedAccessMode access_name (eb_imposed e)
+  (rmany T_pError sid (eb_errors e) (ropt T_pAlias sid (eb_alias e) (ropt T_pCastAlias sid (eb_cast e)
+  (rmany T_pInvalidator sid (eb_invs e) k)))))))))))))))).
+
+Definition r_ixs {L} (sh : L -> str) (ixs : list (ilit * imm L)) (k : list xml) : list xml :=
+  map (fun p => match snd p with
+                | Imm l => Elem T_ValueIndexed [(T_Index, sh_ilit (fst p))] (txt (sh l))
+                | PNode n => Elem T_pValueIndexed [(T_Index, sh_ilit (fst p))] (txt n)
+                end) ixs ++ k.
+Definition r_vk {L} (sh : L -> str) (v : svkind L) (k : list xml) : list xml :=
+  match v with
+  | SvValue l => el T_Value (sh l) :: k
+  | SvPValue before pv after => rmany T_pValueCopy sid before (el T_pValue pv :: rmany T_pValueCopy sid after k)
+  | SvPIndex pi ixs d => el T_pIndex pi :: r_ixs sh ixs (rimm T_ValueDefault T_pValueDefault sh d k)
+  end.
+
+Definition r_named {A} (tag : str) (sh : A -> str) (l : list (str * A)) (k : list xml) : list xml :=
+  map (fun p => Elem tag [(T_Name, fst p)] (txt (sh (snd p)))) l ++ k.
+
+Definition r_bitmask (b : bitmask ilit) (k : list xml) : list xml :=
+  match b with
+  | BmBit x => el T_Bit (sh_ilit x) :: k
+  | BmRange l m => el T_LSB (sh_ilit l) :: el T_MSB (sh_ilit m) :: k
+  end.
+
+Definition r_iswiss_body (s : iswiss Src) : list xml :=
+  r_eb (sk_eb s) (ropt T_Streamable sh_blit (sk_streamable s) (r_named T_pVariable sid (sk_vars s)
+  (r_named T_Constant sh_ilit (sk_consts s) (r_named T_Expression sid (sk_exprs s)
+  (el T_Formula (sk_formula s) :: ropt T_Unit sid (sk_unit s)
+  (ropt T_Representation irep_name (sk_repr s) [])))))).
+Definition r_iswiss (s : iswiss Src) : xml := Elem T_IntSwissKnife (r_attr (sk_attr s)) (r_iswiss_body s).
+
+Definition r_addr (a : saddr) : xml :=
+  match a with
+  | SaAddr (Imm l) => el T_Address (sh_ilit l)
+  | SaAddr (PNode n) => el T_pAddress n
+  | SaSwiss s => r_iswiss s
+  | SaPIndex None pi => el T_pIndex pi
+  | SaPIndex (Some (Imm l)) pi => Elem T_pIndex [(T_Offset, sh_ilit l)] (txt pi)
+  | SaPIndex (Some (PNode n)) pi => Elem T_pIndex [(T_pOffset, n)] (txt pi)
+  end.
+
+Definition r_rb (r : rb Src) (k : list xml) : list xml :=
+  r_eb (rb_eb r) (ropt T_Streamable sh_blit (rb_streamable r) (map r_addr (rb_addrs r) ++
+  rimm T_Length T_pLength sh_ilit (rb_length r) (ropt T_AccessMode access_name (rb_access r)
+  (el T_pPort (rb_port r) :: ropt T_Cachable caching_name (rb_cache r)
+  (ropt T_PollingTime sh_ilit (rb_polling r) (rmany T_pInvalidator sid (rb_invs r) k)))))).
+
+Definition r_plain (n : plain Src) : xml := Elem T_Node (r_attr (pl_attr n)) (r_eb (pl_eb n) []).
+Definition r_category (n : category Src) : xml :=
+  Elem T_Category (r_attr (ca_attr n)) (r_eb (ca_eb n) (rmany T_pFeature sid (ca_features n) [])).
+
+Definition r_integer (n : integer Src) : xml :=
+  Elem T_Integer (r_attr (i_attr n))
+    (r_eb (i_eb n) (ropt T_Streamable sh_blit (i_streamable n) (r_vk sh_ilit (i_value n)
+    (roimm T_Min T_pMin sh_ilit (i_min n) (roimm T_Max T_pMax sh_ilit (i_max n)
+    (roimm T_Inc T_pInc sh_ilit (i_inc n) (ropt T_Unit sid (i_unit n)
+    (ropt T_Representation irep_name (i_repr n) (rmany T_pSelected sid (i_selected n) []))))))))).
+
+Definition r_int_tail (sg : option sign) (en : option endian) (unit : option str) (repr : option irep)
+  (sel : list str) : list xml :=
+  ropt T_Sign sign_name sg (ropt T_Endianess endian_name en (ropt T_Unit sid unit
+  (ropt T_Representation irep_name repr (rmany T_pSelected sid sel [])))).
+
+Definition r_intreg (n : intreg Src) : xml :=
+  Elem T_IntReg (r_attr (ir_attr n))
+    (r_rb (ir_rb n) (r_int_tail (ir_sign n) (ir_endian n) (ir_unit n) (ir_repr n) (ir_selected n))).
+Definition r_masked (n : maskedreg Src) : xml :=
+  Elem T_MaskedIntReg (r_attr (mr_attr n))
+    (r_rb (mr_rb n) (r_bitmask (mr_mask n)
+       (r_int_tail (mr_sign n) (mr_endian n) (mr_unit n) (mr_repr n) (mr_selected n)))).
+
+Definition r_sentry (e : sentry Src) : xml :=
+  Elem T_StructEntry (r_attr (se_attr e))
+    (r_eb (se_eb e) (ropt T_AccessMode access_name (se_access e) (ropt T_Cachable caching_name (se_cache e)
+    (ropt T_PollingTime sh_ilit (se_polling e) (ropt T_Streamable sh_blit (se_streamable e)
+    (r_bitmask (se_mask e) (ropt T_Sign sign_name (se_sign e) (ropt T_Unit sid (se_unit e)
+    (ropt T_Representation irep_name (se_repr e) (rmany T_pSelected sid (se_selected e) [])))))))))).
+Definition r_struct (s : structreg Src) : xml :=
+  Elem T_StructReg [] (r_rb (st_rb s) (ropt T_Endianess endian_name (st_endian s) (map r_sentry (st_entries s)))).
+
+Definition r_boolean (n : boolean Src) : xml :=
+  Elem T_Boolean (r_attr (b_attr n))
+    (r_eb (b_eb n) (ropt T_Streamable sh_blit (b_streamable n) (rimm T_Value T_pValue sh_blit (b_value n)
+    (ropt T_OnValue sh_ilit (b_on n) (ropt T_OffValue sh_ilit (b_off n)
+    (rmany T_pSelected sid (b_selected n) [])))))).
+
+Definition r_command (n : command Src) : xml :=
+  Elem T_Command (r_attr (c_attr n))
+    (r_eb (c_eb n) (rimm T_Value T_pValue sh_ilit (c_value n)
+    (rimm T_CommandValue T_pCommandValue sh_ilit (c_command_value n)
+    (ropt T_PollingTime sh_ilit (c_polling n) [])))).
+
+Definition r_enumentry (e : enumentry Src) : xml :=
+  Elem T_EnumEntry (r_attr (ee_attr e))
+    (r_eb (ee_eb e) (el T_Value (sh_ilit (ee_value e)) :: ropt T_NumericValue sh_fval (ee_numeric e)
+    (ropt T_IsSelfClearing sh_blit (ee_self_clearing e) []))).
+Definition r_enumeration (n : enumeration Src) : xml :=
+  Elem T_Enumeration (r_attr (en_attr n))
+    (r_eb (en_eb n) (ropt T_Streamable sh_blit (en_streamable n) (map r_enumentry (en_entries n) ++
+    rimm T_Value T_pValue sh_ilit (en_value n) (rmany T_pSelected sid (en_selected n)
+    (ropt T_PollingTime sh_ilit (en_polling n) []))))).
+
+Definition r_float_tail (unit : option str) (repr : option frep) (dn : option dnot) (dp : option ilit)
+  : list xml :=
+  ropt T_Unit sid unit (ropt T_Representation frep_name repr (ropt T_DisplayNotation dnot_name dn
+  (ropt T_DisplayPrecision sh_ilit dp []))).
+Definition r_float (n : floatn Src) : xml :=
+  Elem T_Float (r_attr (f_attr n))
+    (r_eb (f_eb n) (ropt T_Streamable sh_blit (f_streamable n) (r_vk sh_fval (f_value n)
+    (roimm T_Min T_pMin sh_fval (f_min n) (roimm T_Max T_pMax sh_fval (f_max n)
+    (roimm T_Inc T_pInc sh_fval (f_inc n)
+    (r_float_tail (f_unit n) (f_repr n) (f_dnot n) (f_dprec n)))))))).
+Definition r_floatreg (n : floatreg Src) : xml :=
+  Elem T_FloatReg (r_attr (fr_attr n))
+    (r_rb (fr_rb n) (ropt T_Endianess endian_name (fr_endian n)
+       (r_float_tail (fr_unit n) (fr_repr n) (fr_dnot n) (fr_dprec n)))).
+
+Definition r_stringn (n : stringn Src) : xml :=
+  Elem T_String (r_attr (s_attr n))
+    (r_eb (s_eb n) (ropt T_Streamable sh_blit (s_streamable n) (rimm T_Value T_pValue sid (s_value n) []))).
+Definition r_regnode (tag : str) (n : regnode Src) : xml := Elem tag (r_attr (rn_attr n)) (r_rb (rn_rb n) []).
+Definition r_port (n : port Src) : xml :=
+  Elem T_Port (r_attr (po_attr n))
+    (r_eb (po_eb n) (roimm T_ChunkID T_pChunkID sh_hlit (po_chunk n)
+    (ropt T_SwapEndianess sh_blit (po_swap n) (ropt T_CacheChunkData sh_blit (po_cache n) [])))).
+
+(* declared nodes of a document *)
+Inductive snode :=
+| SnNode (n : plain Src) | SnCategory (n : category Src) | SnInteger (n : integer Src)
+| SnIntReg (n : intreg Src) | SnMaskedIntReg (n : maskedreg Src) | SnBoolean (n : boolean Src)
+| SnCommand (n : command Src) | SnEnumeration (n : enumeration Src) | SnFloat (n : floatn Src)
+| SnFloatReg (n : floatreg Src) | SnString (n : stringn Src) | SnStringReg (n : regnode Src)
+| SnRegister (n : regnode Src) | SnIntSwissKnife (n : iswiss Src) | SnPort (n : port Src)
+| SnStructReg (s : structreg Src)
+| SnGroup (l : list snode).
+
+Fixpoint render (n : snode) : xml :=
+  match n with
+  | SnNode n => r_plain n | SnCategory n => r_category n | SnInteger n => r_integer n
+  | SnIntReg n => r_intreg n | SnMaskedIntReg n => r_masked n | SnBoolean n => r_boolean n
+  | SnCommand n => r_command n | SnEnumeration n => r_enumeration n | SnFloat n => r_float n
+  | SnFloatReg n => r_floatreg n | SnString n => r_stringn n | SnStringReg n => r_regnode T_StringReg n
+  | SnRegister n => r_regnode T_Register n | SnIntSwissKnife n => r_iswiss n | SnPort n => r_port n
+  | SnStructReg s => r_struct s
+  | SnGroup l => Elem T_Group [] (map render l)
+  end.
+
+(* ------------------------------------------------------------------------------------------------ *)
+(* normalise: what the accessors must report for a declared node (schema defaults filled in)          *)
+
+Definition nb (o : option blit) : bool := dflt false (option_map bl_val o).
+Definition n_imm_i (x : imm ilit) : imm Z := imm_map il_val x.
+Definition n_attr (a : attr Src) : attr Par :=
+  mkAttr Par (a_name a) (dflt NsCustom (a_ns a)) (dflt MpMid (a_mp a)) (option_map bl_val (a_es a)).
+Definition n_eb (e : eb Src) : eb Par :=
+  mkEb Par tt (eb_tooltip e) (eb_description e) (eb_display_name e) (dflt VBeginner (eb_vis e))
+       (eb_docu_url e) (nb (eb_deprecated e)) (option_map hl_val (eb_event e)) (eb_impl e) (eb_avail e)
+       (eb_locked e) (eb_block e) (dflt AmRW (eb_imposed e)) (eb_errors e) (eb_alias e) (eb_cast e) (eb_invs e).
+Definition n_vk {L L'} (f : L -> L') (v : svkind L) : vkind L' :=
+  match v with
+  | SvValue l => VkValue (f l)
+  | SvPValue before pv after => VkPValue pv (before ++ after)
+  | SvPIndex pi ixs d => VkPIndex pi (map (fun p => (il_val (fst p), imm_map f (snd p))) ixs) (imm_map f d)
+  end.
+Definition n_named {A B} (f : A -> B) (l : list (str * A)) : list (str * B) := map (fun p => (fst p, f (snd p))) l.
+Definition n_iswiss (s : iswiss Src) : iswiss Par :=
+  mkIswiss Par (n_attr (sk_attr s)) (n_eb (sk_eb s)) (nb (sk_streamable s)) (sk_vars s)
+           (n_named il_val (sk_consts s)) (sk_exprs s) (sk_formula s) (sk_unit s) (dflt IrPureNumber (sk_repr s)).
+Definition n_addr (a : saddr) : addr :=
+  match a with
+  | SaAddr x => AAddr (n_imm_i x)
+  | SaSwiss s => ASwiss (a_name (sk_attr s))
+  | SaPIndex off pi => APIndex (option_map n_imm_i off) pi
+  end.
+Definition addr_nodes (a : saddr) : list node_data :=
+  match a with SaSwiss s => [NdIntSwissKnife (n_iswiss s)] | _ => [] end.
+Definition n_rb (r : rb Src) : rb Par :=
+  mkRb Par (n_eb (rb_eb r)) (nb (rb_streamable r)) (map n_addr (rb_addrs r)) (n_imm_i (rb_length r))
+       (dflt AmRO (rb_access r)) (rb_port r) (dflt CmWriteThrough (rb_cache r))
+       (option_map il_val (rb_polling r)) (rb_invs r).
+Definition rb_nodes (r : rb Src) : list node_data := List.concat (map addr_nodes (rb_addrs r)).
+Definition n_bitmask (b : bitmask ilit) : bitmask Z :=
+  match b with BmBit x => BmBit (il_val x) | BmRange l m => BmRange (il_val l) (il_val m) end.
+
+Definition n_plain (n : plain Src) : plain Par := mkPlain Par (n_attr (pl_attr n)) (n_eb (pl_eb n)).
+Definition n_category (n : category Src) : category Par :=
+  mkCategory Par (n_attr (ca_attr n)) (n_eb (ca_eb n)) (ca_features n).
+Definition n_integer (n : integer Src) : integer Par :=
+  let r := dflt IrPureNumber (i_repr n) in
+  mkInteger Par (n_attr (i_attr n)) (n_eb (i_eb n)) (nb (i_streamable n)) (n_vk il_val (i_value n))
+    (dflt (Imm (deduce_min r)) (option_map n_imm_i (i_min n)))
+    (dflt (Imm (deduce_max r)) (option_map n_imm_i (i_max n)))
+    (dflt (Imm 1) (option_map n_imm_i (i_inc n))) (i_unit n) r (i_selected n).
+Definition n_intreg (n : intreg Src) : intreg Par :=
+  mkIntreg Par (n_attr (ir_attr n)) (n_rb (ir_rb n)) (dflt SgUnsigned (ir_sign n)) (dflt EnLE (ir_endian n))
+    (ir_unit n) (dflt IrPureNumber (ir_repr n)) (ir_selected n).
+Definition n_masked (n : maskedreg Src) : maskedreg Par :=
+  mkMasked Par (n_attr (mr_attr n)) (n_rb (mr_rb n)) (n_bitmask (mr_mask n)) (dflt SgUnsigned (mr_sign n))
+    (dflt EnLE (mr_endian n)) (mr_unit n) (dflt IrPureNumber (mr_repr n)) (mr_selected n).
+Definition n_eb_noinv (e : eb Src) : eb Par :=
+  mkEb Par tt (eb_tooltip e) (eb_description e) (eb_display_name e) (dflt VBeginner (eb_vis e))
+       (eb_docu_url e) (nb (eb_deprecated e)) (option_map hl_val (eb_event e)) (eb_impl e) (eb_avail e)
+       (eb_locked e) (eb_block e) (dflt AmRW (eb_imposed e)) (eb_errors e) (eb_alias e) (eb_cast e) [].
+Definition n_sentry (e : sentry Src) : sentry Par :=
+  mkSentry Par (n_attr (se_attr e)) (n_eb_noinv (se_eb e)) (eb_invs (se_eb e)) (dflt AmRO (se_access e))
+    (dflt CmWriteThrough (se_cache e)) (option_map il_val (se_polling e)) (nb (se_streamable e))
+    (n_bitmask (se_mask e)) (dflt SgUnsigned (se_sign e)) (se_unit e) (dflt IrPureNumber (se_repr e))
+    (se_selected e).
+Definition n_struct (s : structreg Src) : structreg Par :=
+  mkStruct Par (n_rb (st_rb s)) (dflt EnLE (st_endian s)) (map n_sentry (st_entries s)).
+Definition n_boolean (n : boolean Src) : boolean Par :=
+  let onv := dflt 1 (option_map il_val (b_on n)) in
+  let offv := dflt 0 (option_map il_val (b_off n)) in
+  mkBoolean Par (n_attr (b_attr n)) (n_eb (b_eb n)) (nb (b_streamable n))
+    (match b_value n with Imm l => Imm (if bl_val l then onv else offv) | PNode p => PNode p end)
+    onv offv (b_selected n).
+Definition n_command (n : command Src) : command Par :=
+  mkCommand Par (n_attr (c_attr n)) (n_eb (c_eb n)) (n_imm_i (c_value n)) (n_imm_i (c_command_value n))
+    (option_map il_val (c_polling n)).
+Definition entry_name (symbolic : str) (fresh : Z) : str := 36 :: symbolic ++ 95 :: print_dec fresh.
+Definition n_enumentry (fresh : Z) (e : enumentry Src) : enumentry Par :=
+  let a := n_attr (ee_attr e) in
+  mkEnumentry Par (mkAttr Par (entry_name (a_name a) fresh) (a_ns a) (a_mp a) (a_es a)) (n_eb (ee_eb e))
+    (il_val (ee_value e)) (option_map convert_to_f64 (option_map sh_fval (ee_numeric e))) (a_name a)
+    (nb (ee_self_clearing e)).
+Fixpoint n_enumentries (fresh : Z) (l : list (enumentry Src)) : list (enumentry Par) :=
+  match l with [] => [] | e :: r => n_enumentry fresh e :: n_enumentries (fresh + 1) r end.
+Definition n_enumeration (fresh : Z) (n : enumeration Src) : enumeration Par :=
+  mkEnumeration Par (n_attr (en_attr n)) (n_eb (en_eb n)) (nb (en_streamable n))
+    (map (fun x => a_name (ee_attr x)) (n_enumentries fresh (en_entries n)))
+    (n_imm_i (en_value n)) (en_selected n) (option_map il_val (en_polling n)).
+Definition n_float (n : floatn Src) : floatn Par :=
+  mkFloat Par (n_attr (f_attr n)) (n_eb (f_eb n)) (nb (f_streamable n)) (n_vk (fun x => x) (f_value n))
+    (dflt (Imm (FvBits F64_MIN_BITS)) (f_min n)) (dflt (Imm (FvBits F64_MAX_BITS)) (f_max n)) (f_inc n)
+    (f_unit n) (dflt FrPureNumber (f_repr n)) (dflt DnAutomatic (f_dnot n))
+    (dflt 6 (option_map il_val (f_dprec n))).
+Definition n_floatreg (n : floatreg Src) : floatreg Par :=
+  mkFloatreg Par (n_attr (fr_attr n)) (n_rb (fr_rb n)) (dflt EnLE (fr_endian n)) (fr_unit n)
+    (dflt FrPureNumber (fr_repr n)) (dflt DnAutomatic (fr_dnot n)) (dflt 6 (option_map il_val (fr_dprec n))).
+Definition n_stringn (n : stringn Src) : stringn Par :=
+  mkString Par (n_attr (s_attr n)) (n_eb (s_eb n)) (nb (s_streamable n)) (s_value n).
+Definition n_regnode (n : regnode Src) : regnode Par := mkRegnode Par (n_attr (rn_attr n)) (n_rb (rn_rb n)).
+Definition n_port (n : port Src) : port Par :=
+  mkPort Par (n_attr (po_attr n)) (n_eb (po_eb n)) (option_map (imm_map hl_val) (po_chunk n)) (nb (po_swap n))
+    (nb (po_cache n)).
+
+(* ------------------------------------------------------------------------------------------------ *)
+(* canonical dump of a store (same layout as rust/h_parse)                                           *)
+
+Definition sh_s (s : str) : list Z := zlen s :: s.
+Definition sh_o {A} (f : A -> list Z) (o : option A) : list Z := match o with None => [0] | Some x => 1 :: f x end.
+Definition sh_v {A} (f : A -> list Z) (l : list A) : list Z := zlen l :: List.concat (map f l).
+Definition sh_b (b : bool) : list Z := [if b then 1 else 0].
+Definition sh_z (z : Z) : list Z := [z].
+Definition FSENT : Z := -1180591620717411303424.     (* -(2^70): the next string is a float literal for str::parse *)
+Definition ISENT : Z := -1180591620717411303425.     (* the next integer is converted with `as f64` *)
+Definition sh_f (f : fval) : list Z :=
+  match f with
+  | FvInf => [9218868437227405312]
+  | FvNegInf => [18442240474082181120]
+  | FvText t => FSENT :: sh_s t
+  | FvBits b => [b]
+  end.
+Definition sh_imm {A} (f : A -> list Z) (x : imm A) : list Z :=
+  match x with Imm a => 0 :: f a | PNode n => 1 :: sh_s n end.
+
+Definition sh_base (a : attr Par) (e : eb Par) : list Z :=
+  [namespace_ord (a_ns a); mergeprio_ord (a_mp a)] ++ sh_o sh_b (a_es a) ++
+  sh_o sh_s (eb_tooltip e) ++ sh_o sh_s (eb_description e) ++ sh_o sh_s (eb_display_name e) ++
+  [vis_ord (eb_vis e)] ++ sh_o sh_s (eb_docu_url e) ++ sh_b (eb_deprecated e) ++ sh_o sh_z (eb_event e) ++
+  sh_o sh_s (eb_impl e) ++ sh_o sh_s (eb_avail e) ++ sh_o sh_s (eb_locked e) ++ sh_o sh_s (eb_block e) ++
+  [access_ord (eb_imposed e)] ++ sh_v sh_s (eb_errors e) ++ sh_o sh_s (eb_alias e) ++ sh_o sh_s (eb_cast e).
+
+Definition sh_addr (a : addr) : list Z :=
+  match a with
+  | AAddr x => 0 :: sh_imm sh_z x
+  | ASwiss n => 1 :: sh_s n
+  | APIndex off pi => 2 :: sh_o (sh_imm sh_z) off ++ sh_s pi
+  end.
+Definition sh_rb (r : rb Par) : list Z :=
+  sh_b (rb_streamable r) ++ sh_v sh_addr (rb_addrs r) ++ sh_imm sh_z (rb_length r) ++ [access_ord (rb_access r)] ++
+  sh_s (rb_port r) ++ [caching_ord (rb_cache r)] ++ sh_o sh_z (rb_polling r) ++ sh_v sh_s (rb_invs r).
+Definition sh_vk {L} (f : L -> list Z) (v : vkind L) : list Z :=
+  match v with
+  | VkValue l => 0 :: f l
+  | VkPValue pv cs => 1 :: sh_s pv ++ sh_v sh_s cs
+  | VkPIndex pi ixs d => 2 :: sh_s pi ++ sh_v (fun p => fst p :: sh_imm f (snd p)) ixs ++ sh_imm f d
+  end.
+Definition sh_bitmask (b : bitmask Z) : list Z :=
+  match b with BmBit x => [0; x] | BmRange l m => [1; l; m] end.
+Definition sh_named {A} (f : A -> list Z) (l : list (str * A)) : list Z :=
+  sh_v (fun p => sh_s (fst p) ++ f (snd p)) l.
+
+Definition sh_body (d : node_data) : list Z :=
+  match d with
+  | NdNode n => [0] ++ sh_s (a_name (pl_attr n)) ++ [1] ++ sh_base (pl_attr n) (pl_eb n) ++ [0]
+  | NdCategory n => [1] ++ sh_s (a_name (ca_attr n)) ++ [1] ++ sh_base (ca_attr n) (ca_eb n) ++ [0] ++
+                    sh_v sh_s (ca_features n)
+  | NdInteger n => [2] ++ sh_s (a_name (i_attr n)) ++ [1] ++ sh_base (i_attr n) (i_eb n) ++
+                   sh_b (i_streamable n) ++ sh_vk sh_z (i_value n) ++ sh_imm sh_z (i_min n) ++
+                   sh_imm sh_z (i_max n) ++ sh_imm sh_z (i_inc n) ++ sh_o sh_s (i_unit n) ++
+                   [irep_ord (i_repr n)] ++ sh_v sh_s (i_selected n)
+  | NdIntReg n => [3] ++ sh_s (a_name (ir_attr n)) ++ [1] ++ sh_base (ir_attr n) (rb_eb (ir_rb n)) ++
+                  sh_b (rb_streamable (ir_rb n)) ++ sh_rb (ir_rb n) ++ [sign_ord (ir_sign n); endian_ord (ir_endian n)] ++
+                  sh_o sh_s (ir_unit n) ++ [irep_ord (ir_repr n)] ++ sh_v sh_s (ir_selected n)
+  | NdMaskedIntReg n => [4] ++ sh_s (a_name (mr_attr n)) ++ [1] ++ sh_base (mr_attr n) (rb_eb (mr_rb n)) ++
+                  sh_b (rb_streamable (mr_rb n)) ++ sh_rb (mr_rb n) ++ sh_bitmask (mr_mask n) ++
+                  [sign_ord (mr_sign n); endian_ord (mr_endian n)] ++
+                  sh_o sh_s (mr_unit n) ++ [irep_ord (mr_repr n)] ++ sh_v sh_s (mr_selected n)
+  | NdBoolean n => [5] ++ sh_s (a_name (b_attr n)) ++ [1] ++ sh_base (b_attr n) (b_eb n) ++
+                   sh_b (b_streamable n) ++ sh_imm sh_z (b_value n) ++ [b_on n; b_off n] ++ sh_v sh_s (b_selected n)
+  | NdCommand n => [6] ++ sh_s (a_name (c_attr n)) ++ [1] ++ sh_base (c_attr n) (c_eb n) ++ [0] ++
+                   sh_imm sh_z (c_value n) ++ sh_imm sh_z (c_command_value n) ++ sh_o sh_z (c_polling n)
+  | NdEnumeration n => [7] ++ sh_s (a_name (en_attr n)) ++ [1] ++ sh_base (en_attr n) (en_eb n) ++
+                   sh_b (en_streamable n) ++ sh_v sh_s (en_entries n) ++ sh_imm sh_z (en_value n) ++
+                   sh_v sh_s (en_selected n) ++ sh_o sh_z (en_polling n)
+  | NdEnumEntry n => [8] ++ sh_s (a_name (ee_attr n)) ++ [1] ++ sh_base (ee_attr n) (ee_eb n) ++ [0] ++
+                   [ee_value n] ++ (match ee_numeric n with Some f => sh_f f | None => [ISENT; ee_value n] end) ++
+                   sh_s (ee_symbolic n) ++ sh_b (ee_self_clearing n)
+  | NdFloat n => [9] ++ sh_s (a_name (f_attr n)) ++ [1] ++ sh_base (f_attr n) (f_eb n) ++
+                   sh_b (f_streamable n) ++ sh_vk sh_f (f_value n) ++ sh_imm sh_f (f_min n) ++
+                   sh_imm sh_f (f_max n) ++ sh_o (sh_imm sh_f) (f_inc n) ++ sh_o sh_s (f_unit n) ++
+                   [frep_ord (f_repr n); dnot_ord (f_dnot n); f_dprec n]
+  | NdFloatReg n => [10] ++ sh_s (a_name (fr_attr n)) ++ [1] ++ sh_base (fr_attr n) (rb_eb (fr_rb n)) ++
+                   sh_b (rb_streamable (fr_rb n)) ++ sh_rb (fr_rb n) ++ [endian_ord (fr_endian n)] ++
+                   sh_o sh_s (fr_unit n) ++ [frep_ord (fr_repr n); dnot_ord (fr_dnot n); fr_dprec n]
+  | NdString n => [11] ++ sh_s (a_name (s_attr n)) ++ [1] ++ sh_base (s_attr n) (s_eb n) ++
+                   sh_b (s_streamable n) ++ sh_b (s_streamable n) ++ sh_imm sh_s (s_value n)
+  | NdStringReg n => [12] ++ sh_s (a_name (rn_attr n)) ++ [1] ++ sh_base (rn_attr n) (rb_eb (rn_rb n)) ++
+                   sh_b (rb_streamable (rn_rb n)) ++ sh_rb (rn_rb n)
+  | NdRegister n => [13] ++ sh_s (a_name (rn_attr n)) ++ [1] ++ sh_base (rn_attr n) (rb_eb (rn_rb n)) ++
+                   sh_b (rb_streamable (rn_rb n)) ++ sh_rb (rn_rb n)
+  | NdIntSwissKnife n => [17] ++ sh_s (a_name (sk_attr n)) ++ [1] ++ sh_base (sk_attr n) (sk_eb n) ++
+                   sh_b (sk_streamable n) ++ sh_named sh_s (sk_vars n) ++ sh_named sh_z (sk_consts n) ++
+                   sh_v (fun p => sh_s (fst p)) (sk_exprs n) ++ sh_o sh_s (sk_unit n) ++ [irep_ord (sk_repr n)]
+  | NdPort n => [18] ++ sh_s (a_name (po_attr n)) ++ [1] ++ sh_base (po_attr n) (po_eb n) ++ [0] ++
+                   sh_o (sh_imm sh_z) (po_chunk n) ++ sh_b (po_swap n) ++ sh_b (po_cache n)
+  end.
+Definition sh_node (d : node_data) : list Z := let b := sh_body d in zlen b :: b.
+
+Definition sh_regdesc (r : regdesc) : list Z :=
+  sh_s (rd_model r) ++ sh_s (rd_vendor r) ++ sh_o sh_s (rd_tooltip r) ++ [stdns_ord (rd_stdns r)] ++
+  rd_versions r ++ sh_s (rd_product_guid r) ++ sh_s (rd_version_guid r).
+
+Definition sh_result (x : regdesc * store) : list Z :=
+  let rd := sh_regdesc (fst x) in
+  zlen rd :: rd ++ [zlen (s_nodes (snd x))] ++ List.concat (map sh_node (s_nodes (snd x))) ++
+  [zlen (s_invs (snd x))] ++ List.concat (map (fun p => sh_s (fst p) ++ sh_s (snd p)) (s_invs (snd x))).
+
+(* entry point of the correspondence: the dump of the store built from a document *)
+Definition run_doc (fixed : bool) (root : xml) : list Z := show_outcome sh_result (parse_doc fixed root).
